@@ -74,8 +74,18 @@ def execute(case):
     rec = rawio.start(watch=lambda p: p == datafs)
     r = MarkingRunner('fs', d, out, PROPERTY)
 
+    index_snaps = []        # contents of Data.fs.index whenever it changed (saved at close / reopen)
     try:
-        r.run(case['prog'], check_each=False)
+        for op in case['prog']:
+            r.step(op)
+            if out.failures:
+                break
+            if os.path.exists(datafs + '.index'):
+                with open(datafs + '.index', 'rb') as f:
+                    b = f.read()
+                if not index_snaps or index_snaps[-1] != b:
+                    index_snaps.append(b)
+                    rec.mark(('index-on-disk', len(index_snaps) - 1))
         r.check('live storage at end of history')
     finally:
         r.close()
@@ -108,6 +118,8 @@ def execute(case):
     battery = Battery(programs.CAPS['fs'])
     state = {'n': 0}
 
+    cur_index = [None]
+
     def evaluate(buf, k_done, k_started, inside, where):
         if len(buf) < 4:
             return      # before the storage was created: outside the quantifier
@@ -132,11 +144,16 @@ def execute(case):
         # the image as a read-only opener sees it (nothing is truncated away): only whole committed transactions
         from vlib.model import CorruptGuard
         allowed = [[t.tid for t in model.txns[:k]] for k in range(k_done, k_started + 1)]
+        if cur_index[0] is not None and state['n'] % 2:
+            # ... together with the index file that was on disk at that moment (saved by an earlier clean close)
+            with open(p + '.index', 'wb') as f:
+                f.write(cur_index[0])
         try:
             ro = FileStorage(p, read_only=True)
         except Exception as e:
             out.fail((PROPERTY, 'crash-read-only', 'open-failed', type(e).__name__),
-                     '%s: opening the crash image read-only raised %r' % (where, e))
+                     '%s: opening the crash image read-only%s raised %r' % (
+                         where, ' with the index saved earlier' if os.path.exists(p + '.index') else '', e))
             return
         try:
             lt = ro.lastTransaction()
@@ -146,6 +163,10 @@ def execute(case):
                 ro_tids = None          # (documented: the iterator may refuse a torn tail)
         finally:
             ro.close()
+        if sorted(os.listdir(sub)) not in (['Data.fs'], ['Data.fs', 'Data.fs.index']):
+            out.fail((PROPERTY, 'crash-read-only', 'files-created'),
+                     '%s: the read-only open left %r in the directory' % (where, sorted(os.listdir(sub))))
+            return
         if ro_tids is not None and ro_tids not in allowed:
             out.fail((PROPERTY, 'crash-read-only', 'iterator', 'mismatch'),
                      '%s (k_done=%d k_started=%d): read-only iterator lists %d transactions (last %r); committed: %s' % (
@@ -197,7 +218,9 @@ def execute(case):
     nlog = len(log)
     for i, e in enumerate(log):
         if e[0] == 'mark':
-            if e[1][0] == 'finish-enter':
+            if e[1][0] == 'index-on-disk':
+                cur_index[0] = index_snaps[e[1][1]]
+            elif e[1][0] == 'finish-enter':
                 started += 1
             else:
                 done += 1
